@@ -1,7 +1,7 @@
 /-
 C02: abort freedom.  `Mat.failure` (read off the operand alone) classifies the outcome of `Mat.step` exactly; the code
-as it is (`Mat.stepCode`) yields a container exactly under `Mat.pre`, aborts exactly on D6 / D7 / wrong permutation
-size (and D3 without rows) and crashes exactly on D1 / D3 / D5; under the conjunction of the per-step preconditions (`Mat.runPre`) a chain
+as it is (`Mat.stepCode`) yields a container exactly under `Mat.pre`, aborts exactly on D10 / D7 / wrong permutation
+size and crashes exactly on D5; under the conjunction of the per-step preconditions (`Mat.runPre`) a chain
 runs through (no abort, no crash, no missing member) and `chain_spec` applies.
 -/
 import FeatModel.Model.LA.Chain
@@ -13,11 +13,9 @@ namespace AbortAux
 
 variable {α : Type}
 
-theorem cscr_toCsr_none_iff (B : Cscr α) : B.toCsr = none ↔ B.usedElements = 0 ∨ B.usedRows < B.rows := by
+theorem cscr_toCsr_none_iff [Zero α] (B : Cscr α) : B.toCsr = none ↔ B.usedElements = 0 := by
   unfold Cscr.toCsr
-  by_cases h1 : B.usedElements = 0
-  · simp [h1]
-  · by_cases h2 : B.usedRows < B.rows <;> simp [h1, h2]
+  by_cases h1 : B.usedElements = 0 <;> simp [h1]
 
 theorem csr_toBanded_none_iff [Zero α] (A : Csr α) : A.toBanded = none ↔ A.usedElements = 0 := by
   unfold Csr.toBanded
@@ -43,39 +41,22 @@ def runCode [Zero α] : List Op → Mat α → Option (Mat α)
     | .ok m' => runCode os m'
     | _ => none
 
-theorem failure_abortD6_iff (m : Mat α) (o : Op) :
-    m.failure o = some .abortD6 ↔
-      ∃ B, m = .cscr B ∧ o = .tocsr ∧ (B.usedElements = 0 ∨ B.usedRows < B.rows) := by
-  cases o <;> cases m <;> simp only [Mat.failure] <;> (try split) <;> (try split) <;> (try split) <;> simp_all
+theorem failure_abortD10_iff (m : Mat α) (o : Op) :
+    m.failure o = some .abortD10 ↔ ∃ B, m = .cscr B ∧ o = .tocsr ∧ B.usedElements = 0 := by
+  cases o <;> cases m <;> simp only [Mat.failure] <;> (try split) <;> (try split) <;> simp_all
 
 theorem failure_abortD7_iff (m : Mat α) (o : Op) :
     m.failure o = some .abortD7 ↔ ∃ A, m = .csr A ∧ o = .tobanded ∧ A.usedElements = 0 := by
-  cases o <;> cases m <;> simp only [Mat.failure] <;> (try split) <;> (try split) <;> (try split) <;> simp_all
+  cases o <;> cases m <;> simp only [Mat.failure] <;> (try split) <;> (try split) <;> simp_all
 
 theorem failure_abortPermSize_iff (m : Mat α) (o : Op) :
     m.failure o = some .abortPermSize ↔
       ∃ A p q, m = .csr A ∧ o = .perm p q ∧ ¬(p.size = 0 ∧ q.size = 0) ∧ (p.size ≠ A.rows ∨ q.size ≠ A.cols) := by
-  cases o <;> cases m <;> simp only [Mat.failure] <;> (try split) <;> (try split) <;> (try split) <;> simp_all
-
-theorem failure_crashD1_iff (m : Mat α) (o : Op) :
-    m.failure o = some .crashD1 ↔
-      ∃ A p q, m = .csr A ∧ o = .perm p q ∧ A.usedElements = 0 ∧ ¬(p.size = 0 ∧ q.size = 0) ∧
-        p.size = A.rows ∧ q.size = A.cols := by
-  cases o <;> cases m <;> simp only [Mat.failure] <;> (try split) <;> (try split) <;> (try split) <;> simp_all
-  intros; omega
-
-theorem failure_crashD3_iff (m : Mat α) (o : Op) :
-    m.failure o = some .crashD3 ↔ ∃ A, m = .csr A ∧ o = .tocscr ∧ A.usedElements = 0 ∧ 0 < A.rows := by
-  cases o <;> cases m <;> simp only [Mat.failure] <;> (try split) <;> (try split) <;> (try split) <;> simp_all
-  omega
-
-theorem failure_abortD3_iff (m : Mat α) (o : Op) :
-    m.failure o = some .abortD3 ↔ ∃ A, m = .csr A ∧ o = .tocscr ∧ A.usedElements = 0 ∧ A.rows = 0 := by
-  cases o <;> cases m <;> simp only [Mat.failure] <;> (try split) <;> (try split) <;> (try split) <;> simp_all
+  cases o <;> cases m <;> simp only [Mat.failure] <;> (try split) <;> (try split) <;> simp_all
 
 theorem failure_crashD5_iff (m : Mat α) (o : Op) :
     m.failure o = some .crashD5 ↔ ∃ A, m = .csr A ∧ o = .graph ∧ A.usedElements = 0 ∧ 0 < A.rows := by
-  cases o <;> cases m <;> simp only [Mat.failure] <;> (try split) <;> (try split) <;> (try split) <;> simp_all
+  cases o <;> cases m <;> simp only [Mat.failure] <;> (try split) <;> (try split) <;> simp_all
 
 end AbortAux
 open AbortAux
@@ -83,18 +64,17 @@ open AbortAux
 variable {α : Type}
 
 theorem step_classify [Zero α] (m : Mat α) (o : Op) :
-    (m.step o = .abort ↔ m.failure o = some .abortD6 ∨ m.failure o = some .abortD7 ∨
+    (m.step o = .abort ↔ m.failure o = some .abortD10 ∨ m.failure o = some .abortD7 ∨
       m.failure o = some .abortPermSize) ∧
     (m.step o = .bad ↔ m.failure o = some .notApplicable) ∧
-    ((∃ m', m.step o = .ok m') ↔ m.failure o = none ∨ m.failure o = some .crashD1 ∨ m.failure o = some .crashD3 ∨
-      m.failure o = some .crashD5 ∨ m.failure o = some .abortD3) := by
+    ((∃ m', m.step o = .ok m') ↔ m.failure o = none ∨ m.failure o = some .crashD5) := by
   cases o <;> cases m <;> simp only [Mat.step, Mat.failure]
   all_goals first
     | (refine ⟨?_, ?_, ?_⟩ <;> simp; done)
     | skip
   case tocsr.cscr B =>
     have hn := cscr_toCsr_none_iff B
-    by_cases hc : B.usedElements = 0 ∨ B.usedRows < B.rows
+    by_cases hc : B.usedElements = 0
     · rw [hn.2 hc, if_pos hc]; simp
     · rw [if_neg hc]
       cases h : B.toCsr with
@@ -108,13 +88,6 @@ theorem step_classify [Zero α] (m : Mat α) (o : Op) :
       cases h : A.toBanded with
       | none => exact absurd (hn.1 h) hc
       | some B => simp
-  case tocscr.csr A =>
-    by_cases hc : A.usedElements = 0
-    · rw [if_pos hc]
-      by_cases hr : A.rows = 0
-      · rw [if_pos hr]; simp
-      · rw [if_neg hr]; simp
-    · rw [if_neg hc]; simp
   case graph.csr A =>
     by_cases hc : A.usedElements = 0 ∧ 0 < A.rows
     · rw [if_pos hc]; simp
@@ -132,10 +105,7 @@ theorem step_classify [Zero α] (m : Mat α) (o : Op) :
       · rw [if_neg h2]
         cases h : A.permute p q with
         | none => exact absurd (hn.1 h).2 h2
-        | some B =>
-          by_cases h3 : A.usedElements = 0
-          · rw [if_pos h3]; simp
-          · rw [if_neg h3]; simp
+        | some B => simp
 
 /-! ### the code as it is -/
 
@@ -144,12 +114,10 @@ namespace AbortAux
 /-- the four outcomes of `stepCode`, each with the failure class and the outcome of `step` -/
 theorem stepCode_cases [Zero α] (m : Mat α) (o : Op) :
     (m.failure o = none ∧ ∃ m', m.step o = .ok m' ∧ m.stepCode o = .ok m') ∨
-    ((m.failure o = some .crashD1 ∨ m.failure o = some .crashD3 ∨ m.failure o = some .crashD5) ∧
-      m.stepCode o = .crash ∧ ∃ m', m.step o = .ok m') ∨
-    ((m.failure o = some .abortD6 ∨ m.failure o = some .abortD7 ∨ m.failure o = some .abortPermSize) ∧
+    (m.failure o = some .crashD5 ∧ m.stepCode o = .crash ∧ ∃ m', m.step o = .ok m') ∨
+    ((m.failure o = some .abortD10 ∨ m.failure o = some .abortD7 ∨ m.failure o = some .abortPermSize) ∧
       m.stepCode o = .abort ∧ m.step o = .abort) ∨
-    (m.failure o = some .notApplicable ∧ m.stepCode o = .bad ∧ m.step o = .bad) ∨
-    (m.failure o = some .abortD3 ∧ m.stepCode o = .abort ∧ ∃ m', m.step o = .ok m') := by
+    (m.failure o = some .notApplicable ∧ m.stepCode o = .bad ∧ m.step o = .bad) := by
   obtain ⟨ha, hb, hk⟩ := step_classify m o
   unfold Mat.stepCode
   cases hf : m.failure o with
@@ -158,7 +126,7 @@ theorem stepCode_cases [Zero α] (m : Mat α) (o : Op) :
     exact Or.inl ⟨rfl, m', h, by simp [h]⟩
   | some f =>
     cases f with
-    | abortD6 =>
+    | abortD10 =>
       have h := ha.2 (Or.inl hf)
       exact Or.inr (Or.inr (Or.inl ⟨Or.inl rfl, by simp [h], h⟩))
     | abortD7 =>
@@ -167,81 +135,53 @@ theorem stepCode_cases [Zero α] (m : Mat α) (o : Op) :
     | abortPermSize =>
       have h := ha.2 (Or.inr (Or.inr hf))
       exact Or.inr (Or.inr (Or.inl ⟨Or.inr (Or.inr rfl), by simp [h], h⟩))
-    | crashD1 => exact Or.inr (Or.inl ⟨Or.inl rfl, rfl, hk.2 (Or.inr (Or.inl hf))⟩)
-    | crashD3 => exact Or.inr (Or.inl ⟨Or.inr (Or.inl rfl), rfl, hk.2 (Or.inr (Or.inr (Or.inl hf)))⟩)
-    | crashD5 => exact Or.inr (Or.inl ⟨Or.inr (Or.inr rfl), rfl, hk.2 (Or.inr (Or.inr (Or.inr (Or.inl hf))))⟩)
-    | abortD3 => exact Or.inr (Or.inr (Or.inr (Or.inr ⟨rfl, rfl, hk.2 (Or.inr (Or.inr (Or.inr (Or.inr hf))))⟩)))
+    | crashD5 => exact Or.inr (Or.inl ⟨rfl, rfl, hk.2 (Or.inr hf)⟩)
     | notApplicable =>
       have h := hb.2 hf
-      exact Or.inr (Or.inr (Or.inr (Or.inl ⟨rfl, by simp [h], h⟩)))
+      exact Or.inr (Or.inr (Or.inr ⟨rfl, by simp [h], h⟩))
 
 end AbortAux
 
 /-- the code yields a container exactly under the per-step precondition -/
 theorem stepCode_ok_iff [Zero α] (m : Mat α) (o : Op) : (∃ m', m.stepCode o = .ok m') ↔ m.pre o = true := by
   unfold Mat.pre
-  rcases stepCode_cases m o with ⟨hf, m', _, hc⟩ | ⟨hf, hc, _⟩ | ⟨hf, hc, _⟩ | ⟨hf, hc, _⟩ | ⟨hf, hc, _⟩
+  rcases stepCode_cases m o with ⟨hf, m', _, hc⟩ | ⟨hf, hc, _⟩ | ⟨hf, hc, _⟩ | ⟨hf, hc, _⟩
+  · rw [hf, hc]; simp
   · rw [hf, hc]; simp
   · rw [hc]; rcases hf with hf | hf | hf <;> rw [hf] <;> simp
-  · rw [hc]; rcases hf with hf | hf | hf <;> rw [hf] <;> simp
-  · rw [hf, hc]; simp
   · rw [hf, hc]; simp
 
 /-- … and that container is the one of `step` -/
 theorem stepCode_ok_eq_step [Zero α] (m m' : Mat α) (o : Op) (h : m.stepCode o = .ok m') : m.step o = .ok m' := by
-  rcases stepCode_cases m o with ⟨_, m1, hs, hc⟩ | ⟨_, hc, _⟩ | ⟨_, hc, _⟩ | ⟨_, hc, _⟩ | ⟨_, hc, _⟩
+  rcases stepCode_cases m o with ⟨_, m1, hs, hc⟩ | ⟨_, hc, _⟩ | ⟨_, hc, _⟩ | ⟨_, hc, _⟩
   · rw [hc] at h; cases h; exact hs
   · rw [hc] at h; cases h
   · rw [hc] at h; cases h
   · rw [hc] at h; cases h
-  · rw [hc] at h; cases h
 
-/-- the code aborts exactly on D6, D7, a permutation of the wrong size, and D3 on a matrix without rows -/
+/-- the code aborts exactly on D10 (an entry-free CSCR matrix to CSR), D7 (an entry-free CSR matrix to banded) and a
+    permutation of the wrong size -/
 theorem stepCode_abort_iff [Zero α] (m : Mat α) (o : Op) :
     m.stepCode o = .abort ↔
-      (∃ B, m = .cscr B ∧ o = .tocsr ∧ (B.usedElements = 0 ∨ B.usedRows < B.rows)) ∨
+      (∃ B, m = .cscr B ∧ o = .tocsr ∧ B.usedElements = 0) ∨
       (∃ A, m = .csr A ∧ o = .tobanded ∧ A.usedElements = 0) ∨
       (∃ A p q, m = .csr A ∧ o = .perm p q ∧ ¬(p.size = 0 ∧ q.size = 0) ∧
-        (p.size ≠ A.rows ∨ q.size ≠ A.cols)) ∨
-      (∃ A, m = .csr A ∧ o = .tocscr ∧ A.usedElements = 0 ∧ A.rows = 0) := by
-  rw [← failure_abortD6_iff, ← failure_abortD7_iff, ← failure_abortPermSize_iff, ← failure_abortD3_iff]
-  rcases stepCode_cases m o with ⟨hf, m', _, hc⟩ | ⟨hf, hc, _⟩ | ⟨hf, hc, _⟩ | ⟨hf, hc, _⟩ | ⟨hf, hc, _⟩
+        (p.size ≠ A.rows ∨ q.size ≠ A.cols)) := by
+  rw [← failure_abortD10_iff, ← failure_abortD7_iff, ← failure_abortPermSize_iff]
+  rcases stepCode_cases m o with ⟨hf, m', _, hc⟩ | ⟨hf, hc, _⟩ | ⟨hf, hc, _⟩ | ⟨hf, hc, _⟩
   · rw [hf, hc]; simp
-  · rw [hc]; rcases hf with hf | hf | hf <;> rw [hf] <;> simp
-  · rw [hc]; refine ⟨fun _ => ?_, fun _ => rfl⟩
-    rcases hf with hf | hf | hf
-    · exact Or.inl hf
-    · exact Or.inr (Or.inl hf)
-    · exact Or.inr (Or.inr (Or.inl hf))
   · rw [hf, hc]; simp
+  · rw [hc]; exact ⟨fun _ => hf, fun _ => rfl⟩
   · rw [hf, hc]; simp
 
-/-- the code crashes exactly on D1, D3 and D5: a CSR matrix without entries under a (sized) permutation, or — with
-    rows — the conversion to CSCR or the graph rebuild -/
+/-- the code crashes exactly on D5: the graph rebuild of a CSR matrix without entries and with rows -/
 theorem stepCode_crash_iff [Zero α] (m : Mat α) (o : Op) :
-    m.stepCode o = .crash ↔ ∃ A, m = .csr A ∧ A.usedElements = 0 ∧
-      ((∃ p q, o = .perm p q ∧ ¬(p.size = 0 ∧ q.size = 0) ∧ p.size = A.rows ∧ q.size = A.cols) ∨
-        (o = .tocscr ∧ 0 < A.rows) ∨ (o = .graph ∧ 0 < A.rows)) := by
-  have key : (m.failure o = some .crashD1 ∨ m.failure o = some .crashD3 ∨ m.failure o = some .crashD5) ↔
-      ∃ A, m = .csr A ∧ A.usedElements = 0 ∧
-        ((∃ p q, o = .perm p q ∧ ¬(p.size = 0 ∧ q.size = 0) ∧ p.size = A.rows ∧ q.size = A.cols) ∨
-          (o = .tocscr ∧ 0 < A.rows) ∨ (o = .graph ∧ 0 < A.rows)) := by
-    rw [failure_crashD1_iff, failure_crashD3_iff, failure_crashD5_iff]
-    constructor
-    · rintro (⟨A, p, q, hm, ho, hu, hpq⟩ | ⟨A, hm, ho, hu, hr⟩ | ⟨A, hm, ho, hu, hr⟩)
-      · exact ⟨A, hm, hu, Or.inl ⟨p, q, ho, hpq⟩⟩
-      · exact ⟨A, hm, hu, Or.inr (Or.inl ⟨ho, hr⟩)⟩
-      · exact ⟨A, hm, hu, Or.inr (Or.inr ⟨ho, hr⟩)⟩
-    · rintro ⟨A, hm, hu, ⟨p, q, ho, hpq⟩ | ⟨ho, hr⟩ | ⟨ho, hr⟩⟩
-      · exact Or.inl ⟨A, p, q, hm, ho, hu, hpq⟩
-      · exact Or.inr (Or.inl ⟨A, hm, ho, hu, hr⟩)
-      · exact Or.inr (Or.inr ⟨A, hm, ho, hu, hr⟩)
-  rw [← key]
-  rcases stepCode_cases m o with ⟨hf, m', _, hc⟩ | ⟨hf, hc, _⟩ | ⟨hf, hc, _⟩ | ⟨hf, hc, _⟩ | ⟨hf, hc, _⟩
+    m.stepCode o = .crash ↔ ∃ A, m = .csr A ∧ o = .graph ∧ A.usedElements = 0 ∧ 0 < A.rows := by
+  rw [← failure_crashD5_iff]
+  rcases stepCode_cases m o with ⟨hf, m', _, hc⟩ | ⟨hf, hc, _⟩ | ⟨hf, hc, _⟩ | ⟨hf, hc, _⟩
   · rw [hf, hc]; simp
   · rw [hc]; exact ⟨fun _ => hf, fun _ => rfl⟩
   · rw [hc]; rcases hf with hf | hf | hf <;> rw [hf] <;> simp
-  · rw [hf, hc]; simp
   · rw [hf, hc]; simp
 
 /-! ### chains under the conjunction of the per-step preconditions -/
